@@ -1182,6 +1182,9 @@ def _argspace_exec(args):
                     elif c["mode"] == "ungrouped":
                         df = t >> summarize(r=e) >> export(pdt.Polars())
                         rec["out"] = [[0, enc(x)] for x in df["r"].to_list()]
+                    elif c["mode"] == "constgroup":
+                        df = t >> mutate(k=5) >> group_by(pdt.C.k) >> summarize(r=e) >> export(pdt.Polars())
+                        rec["out"] = [[0, enc(x)] for x in df["r"].to_list()]
                     else:
                         df = t >> mutate(r=e) >> export(pdt.Polars())
                         rec["out"] = [[i, enc(x)] for i, x in zip(df["rid"].to_list(), df["r"].to_list())]
